@@ -21,6 +21,7 @@ def observe(spec, inputs):
             continue
         out["flags"][nid] = {"taut": bool(nd.is_tautology), "contr": bool(nd.is_contradiction),
                              "eqb": [int(nd.equation_bounds[0]), int(nd.equation_bounds[1])]}
+    out["flags_multiset"] = sorted(([v["taut"], v["contr"], v["eqb"]] for v in out["flags"].values()), key=repr)
     if spec.get("part") == "flags":
         return out
     m1 = plspec.build(n, spec["model"], env)
